@@ -328,7 +328,14 @@ def check_generated(chk, drv, g, protos, label, src="generated"):
     inp = {"label": label, "protos": protos}
 
     def fail(kind, where, detail, region=()):
-        chk.fail(kind, dict(inp, where=where, region=sorted(region)), detail)
+        fl = {"kind": kind, "input": dict(inp, where=where, region=sorted(region)), "detail": detail}
+        fid = classify(fl, [e for e in chk.known if e.get("status") == "known"])
+        if fid is not None:
+            # keep the (capped) failure buffer for unlisted failures: a few examples per listed finding suffice
+            chk.count("failures_in_known_class_" + fid)
+            if chk.dist["failures_in_known_class_" + fid] > 5:
+                return
+        chk.fail(kind, fl["input"], detail)
 
     fds = descriptor_pb2.FileDescriptorSet.FromString(g.descriptor)
     sreg = schema_regions(fds)
